@@ -51,6 +51,9 @@ def hostile_values(f, quick):
             ("bytes_empty", b""), ("bytes_w-1", bytes(max(n - 1, 0))), ("bytes_w", b"\x41" * n), ("bytes_w+1", bytes(n + 1)),
             ("list_empty", []), ("list_w", [0] * n), ("list_w+1", [0] * (n + 1)), ("list_256", [256] * n),
             ("none", None), ("bool", True)]
+    if k == "A":  # array fields: lists of exactly the defined length whose ITEMS are unfit
+        out += [("list_w_of_float", [0.5] * n), ("list_w_of_none", [None] * n), ("list_w_of_str", ["a"] * n), ("list_w_last_item_float", [0] * (n - 1) + [1.5]),
+                ("list_w_of_negative", [-1] * n), ("list_w_of_bool", [True] * n), ("list_w_of_list", [[0]] * n)]
     if not quick:
         out += [("int_2^16", 1 << 16), ("int_min64-1", -(1 << 63) - 1), ("neg_zero", -0.0), ("neg_inf", float("-inf")),
                 ("str_1", "a"), ("str_nonascii", "é" * n), ("str_w-1", "a" * max(n - 1, 0)), ("list_1", [0]), ("tuple", ()), ("dict", {}),
